@@ -200,9 +200,7 @@ def _sig_tiny_gene_at_origin(sub, spec, clause, detail) -> bool:
     length = len(spec["seq"])
     pad = spec["pad"]
     for gene in spec["genes"]:
-        if gen.is_span(gene):
-            continue
-        start, end = _hull(gene)
+        start, end = _hull(gene)     # what the code works with, 0..L for an origin-spanning gene
         if end <= pad or start >= length - pad:
             return True
     return False
@@ -742,6 +740,7 @@ POOL = ("ATG", "GTG", "TTG", "TAA", "TAG", "TGA",           # starts and stops
         "CAT", "CAC", "CAA", "TTA", "CTA", "TCA",           # their reverse complements
         "AAA", "CCC", "GCA", "NNN", "TAR", "RTG", "ATN", "YAA", "AAT", "GAT")
 POOL_WEIGHTED = POOL[:12] * 3 + POOL[12:]
+POOL_QUIET = ("AAA", "CCC", "GCA", "GAT", "AAT", "CAC", "CAA", "ACC", "GGC", "ATG", "CAT", "TTG", "TAA", "TTA", "NNN")
 IUPAC = "ACGTRYSWKMBDHVN"
 
 
@@ -749,9 +748,10 @@ IUPAC = "ACGTRYSWKMBDHVN"
 def dna_chunks(draw, max_codons: int = 30, planted: bool = True) -> str:
     """ start/stop-rich DNA: codons from the pool, optional planted ORFs on either strand,
         0-2 extra bases at both ends, optional lower case and stray IUPAC letters """
-    pieces = list(draw(st.lists(st.sampled_from(POOL_WEIGHTED), min_size=0, max_size=max_codons)))
-    if planted and draw(st.integers(0, 2)) > 0:
-        for _ in range(draw(st.integers(1, 2))):
+    pool = draw(st.sampled_from((POOL_WEIGHTED, POOL_QUIET, POOL_QUIET[:9])))
+    pieces = list(draw(st.lists(st.sampled_from(pool), min_size=0, max_size=max_codons)))
+    if planted and draw(st.integers(0, 3)) > 0:
+        for _ in range(draw(st.integers(1, 3))):
             inner = draw(st.lists(st.sampled_from(("AAA", "CCC", "GCA", "ATG", "CAT", "NNN", "GAT")),
                                   min_size=0, max_size=draw(st.sampled_from((1, 2, 3, 19, 20)))))
             orf = draw(st.sampled_from(STARTS)) + "".join(inner) + draw(st.sampled_from(STOPS))
@@ -779,9 +779,9 @@ def scan_specs(draw):
     size = len(chunk)
     direction = draw(st.sampled_from((1, -1)))
     orf_lengths = sorted({e - b for b, e in ref_orfs(chunk, 0)})
-    minima = [0, 3, 6, 9, 60]
+    minima = [0, 0, 0, 3, 6, 9, 60]
     for value in orf_lengths[:6]:
-        minima.extend((value - 1, value, value, value + 1))
+        minima.extend((value - 3, value - 1, value, value + 1))
     minimum = draw(st.sampled_from(minima))
     spec = {"chunk": chunk, "dir": direction, "min": max(0, minimum),
             "fill": draw(st.sampled_from(("C", "C", "CCGCA", "ATGAAATAG")))}
@@ -791,7 +791,13 @@ def scan_specs(draw):
     else:
         extra = draw(st.sampled_from((0, 0, 0, 1, 2, 3, 4, 7, 60)))
         length = max(1, size + extra)
-        anchors = (length - size, -size)
+        anchors = [length - size, -size]
+        for begin, end in ref_orfs(chunk, 0)[:4]:
+            # offsets that put this ORF across the origin (just, in the middle, almost completely)
+            low = begin if direction == 1 else size - end
+            for inside in (1, (end - begin) // 2, end - begin - 1):
+                anchors.extend((length - low - inside, -low - inside))
+        anchors = tuple(a for a in anchors if -length <= a <= length)
         spec.update({"L": length, "off": draw(gen.coord(-length, length, anchors=anchors))})
     if draw(st.integers(0, 7)) == 0:
         spec["as_seq"] = True
@@ -840,7 +846,7 @@ def gene_layouts(draw, length: int, circular: bool, pad: int, anchors: tuple) ->
             if kind == "tiny":
                 size = draw(st.integers(3, max(3, min(length, 2 * pad + 1))))
             else:
-                size = draw(gen.coord(3, min(length, 80)))
+                size = draw(gen.coord(3, max(3, min(length // 2, 80))))
             if kind == "nested_tail" and previous is not None:
                 p_start, p_end = previous
                 # ends within the padding of the previous gene's end, starts inside it
@@ -863,22 +869,28 @@ def gene_layouts(draw, length: int, circular: bool, pad: int, anchors: tuple) ->
 
 @st.composite
 def search_specs(draw):
-    seq = draw(dna_chunks(max_codons=draw(st.sampled_from((6, 20, 40, 80)))))
+    seq = draw(dna_chunks(max_codons=draw(st.sampled_from((6, 20, 40, 80, 120)))))
     if len(seq) < 6:
         seq = seq + "ATGAAATAG"
     length = len(seq)
     circular = draw(st.integers(0, 3)) > 0
     pad = draw(st.sampled_from((0, 1, 3, 10, 10, 10, 15)))
     arcs = _all_orf_arcs(seq)
+    if circular and arcs and draw(st.booleans()):
+        # rotate the ring so that one of its ORFs lies across the origin
+        start, size, _ = draw(st.sampled_from(arcs))
+        cut = (start + draw(st.integers(1, size - 1))) % length
+        seq = seq[cut:] + seq[:cut]
+        arcs = _all_orf_arcs(seq)
     anchors = [0, length]
     if arcs:
         for start, size, _ in draw(st.lists(st.sampled_from(arcs), min_size=1, max_size=3)):
             anchors.extend(((start + pad) % length, (start + size - pad) % length, start, (start + size) % length))
     anchors = tuple(anchors)
     genes = draw(gene_layouts(length, circular, pad, anchors))
-    minima = [0, 3, 6, 9, 12, 30, 60]
+    minima = [0, 0, 0, 0, 3, 6, 9, 12, 60]
     for _, size, _ in arcs[:6]:
-        minima.extend((size - 1, size, size + 1))
+        minima.extend((size - 3, size - 1, size, size + 1))
     minimum = max(0, draw(st.sampled_from(minima)))
     mode = draw(st.sampled_from(("none", "simple", "cross", "cross") if circular else ("none", "simple")))
     area = None
@@ -929,11 +941,11 @@ def run(ctx) -> None:
     shards = ctx.pick(8, 16)
     ctx.enum("scan_enum", enum_scan(ctx.pick(4, 6), ctx.pick(2, 3)), shards=shards)
     ctx.enum("search_free", enum_search_free(ctx.pick(3, 4)), shards=shards)
-    ctx.enum("search_enum", enum_search(ctx.pick(7, 3), ctx.pick((6, 25), (4, 9, 25)), ctx.pick((0, 4), (0, 2, 4, 10))),
+    ctx.enum("search_enum", enum_search(ctx.pick(5, 3), ctx.pick((6, 25), (4, 9, 25)), ctx.pick((0, 4), (0, 2, 4, 10))),
              shards=shards)
     rand_shards = ctx.pick(4, 16)
-    ctx.hyp("scan", scan_specs(), max_examples=ctx.pick(4000, 120000), shards=rand_shards)
-    ctx.hyp("search", search_specs(), max_examples=ctx.pick(2500, 80000), shards=rand_shards)
+    ctx.hyp("scan", scan_specs(), max_examples=ctx.pick(6000, 120000), shards=rand_shards)
+    ctx.hyp("search", search_specs(), max_examples=ctx.pick(4000, 80000), shards=rand_shards)
     ctx.hyp("feature", feature_specs(), max_examples=ctx.pick(1200, 30000), shards=rand_shards)
     ctx.extra["bounds"] = {"scan_enum_max_codons": ctx.pick(4, 6), "scan_enum_all_parameters_up_to_codons": ctx.pick(2, 3),
                            "search_free_max_codons": ctx.pick(3, 4)}
